@@ -186,11 +186,59 @@ func c18(c *Ctx) {
 		r.Check("start:send-sites", ns == 2, st.Pos(), fmt.Sprintf("%d sendTick calls (first tick, repeating ticks)", ns))
 		// repeating ticker uses the interval
 		okT := false
+		// "the interval": the ticker's interval field, or a parameter that every caller binds to the constructor's
+		// interval (the value the field would hold), traced through the go / call sites
+		var isInterval func(v ssa.Value, d int) bool
+		isInterval = func(v ssa.Value, d int) bool {
+			if d > 4 {
+				return false
+			}
+			if strings.HasSuffix(pathOf(v), ".interval") {
+				return true
+			}
+			p, ok := ptrOrigin(v).(*ssa.Parameter)
+			if !ok {
+				return false
+			}
+			fn := p.Parent()
+			if strings.HasPrefix(fn.Name(), "NewAlignedTicker") {
+				// the constructor's interval: the Duration parameter that precedes the offset
+				var durs []*ssa.Parameter
+				for _, q := range fn.Params {
+					if strings.HasSuffix(q.Type().String(), "time.Duration") {
+						durs = append(durs, q)
+					}
+				}
+				return len(durs) == 2 && durs[0] == p
+			}
+			idx := -1
+			for i, q := range fn.Params {
+				if q == p {
+					idx = i
+				}
+			}
+			n := 0
+			for _, g := range w.ModuleFuncs() {
+				if strings.Contains(fnPkgPath(g), "/internal/fixtures") {
+					continue
+				}
+				for _, cc := range callsIn(g) {
+					if staticCallee(cc) != fn || idx >= len(cc.Common().Args) {
+						continue
+					}
+					n++
+					if !isInterval(cc.Common().Args[idx], d+1) {
+						return false
+					}
+				}
+			}
+			return n > 0
+		}
 		for _, cl := range callsIn(st) {
-			if cl.Common().IsInvoke() && cl.Common().Method.Name() == "NewTicker" && strings.HasSuffix(pathOf(cl.Common().Args[0]), ".interval") {
+			if cl.Common().IsInvoke() && cl.Common().Method.Name() == "NewTicker" && isInterval(cl.Common().Args[0], 0) {
 				okT = true
 			}
-			if cal := staticCallee(cl); cal != nil && cal.Name() == "NewTicker" && strings.HasSuffix(pathOf(cl.Common().Args[len(cl.Common().Args)-1]), ".interval") {
+			if cal := staticCallee(cl); cal != nil && cal.Name() == "NewTicker" && isInterval(cl.Common().Args[len(cl.Common().Args)-1], 0) {
 				okT = true
 			}
 		}
@@ -263,7 +311,8 @@ func c18(c *Ctx) {
 			}
 		}
 		// makeTicker selects the aligned ticker exactly when flushAligned
-		mt := w.Func("pkg/statsd", "(*MetricFlusher).makeTicker")
+		// (when makeTicker was written into Run, its only caller, the same facts are looked for there)
+		mt, _ := w.FuncOrHost("pkg/statsd", "(*MetricFlusher).makeTicker")
 		if mt == nil {
 			r.Unresolved("(*MetricFlusher).makeTicker")
 			return
@@ -403,6 +452,21 @@ func c18(c *Ctx) {
 				for _, s := range sel.States {
 					if s.Send == nil && strings.Contains(pathOf(s.Chan), "makeTicker") {
 						okSrc = true
+					}
+					// the ticker made in place: on every path the channel is the C of a ticker constructed here
+					if s.Send == nil && s.Chan != nil {
+						all, any := true, false
+						for _, vc := range valueCases(s.Chan, nil) {
+							p := pathOf(vc.V)
+							if strings.HasSuffix(p, ".C") && (strings.Contains(p, "NewAlignedTickerWithContext") || strings.Contains(p, "NewTicker")) {
+								any = true
+							} else {
+								all = false
+							}
+						}
+						if all && any {
+							okSrc = true
+						}
 					}
 				}
 			}
